@@ -1,6 +1,7 @@
 package main
 
 import (
+	"regexp"
 	"fmt"
 	"go/token"
 	"go/types"
@@ -610,8 +611,13 @@ func normSQL(s string) string {
 		}
 		lines = append(lines, t)
 	}
-	return strings.ToLower(strings.Join(strings.Fields(strings.Join(lines, " ")), " "))
+	j := strings.Join(lines, " ")
+	// formatting-insensitive: operators, parentheses and commas are tokens of their own
+	j = sqlTok.ReplaceAllString(j, " $1 ")
+	return strings.ToLower(strings.Join(strings.Fields(j), " "))
 }
+
+var sqlTok = regexp.MustCompile(`(>=|<=|<>|!=|::|=|<|>|\(|\)|,|;)`)
 
 // SQL checks that the sqlc query constant contains all fragments (after normalisation).
 func (c *Check) SQL(p *Prog, rule, pkgrel, constName string, fragments ...string) {
@@ -621,6 +627,17 @@ func (c *Check) SQL(p *Prog, rule, pkgrel, constName string, fragments ...string
 	}
 	n := normSQL(q)
 	for _, f := range fragments {
+		if strings.HasPrefix(f, "!") {
+			// a clause that must be absent (e.g. a restriction on a load-everything query)
+			nf := normSQL(f[1:])
+			key := pkgrel + "." + constName + " ⊉ " + nf
+			if !strings.Contains(" "+n+" ", " "+nf+" ") {
+				c.Ok(rule, key, pkgrel+"."+constName, "sql:"+constName, "no "+nf, "query: "+n)
+			} else {
+				c.Fail(rule, key, pkgrel+"."+constName, "sql:"+constName, "no "+nf, fmt.Sprintf("query constant %s contains %q, which restricts a query that must return every row: %s", constName, nf, n))
+			}
+			continue
+		}
 		nf := normSQL(f)
 		key := pkgrel + "." + constName + " ⊇ " + nf
 		if strings.Contains(n, nf) {
@@ -1043,6 +1060,34 @@ func linearSearchRule(p *Prog, c *Check, rule, spec, collPat string) {
 		return
 	}
 	c.Analysed(shortFn(fn))
+	ok, why := linearSearchOK(p, fn, collPat, 0)
+	c.Result(ok, rule, fnName(fn)+":linear-search", p.Rel(fn.Pos()), shortFn(fn), "linear search over "+collPat, why, "found only on equality inside the loop; not-found only by exhaustion of [0, len)")
+}
+
+// foundKind classifies a return of a search function by its last result: +1 found, -1 not found, 0 unclear.
+func foundKind(fi *FnInfo, r *ssa.Return) int {
+	fn := fi.Fn
+	nres := fn.Signature.Results().Len()
+	last := fn.Signature.Results().At(nres - 1).Type()
+	if isErrorType(last) {
+		switch fi.errIsNil(r.Results[nres-1], r, 0) {
+		case yes:
+			return 1
+		case no:
+			return -1
+		}
+		return 0
+	}
+	switch fi.T(r.Results[nres-1]).s {
+	case "true":
+		return 1
+	case "false":
+		return -1
+	}
+	return 0
+}
+
+func linearSearchOK(p *Prog, fn *ssa.Function, collPat string, depth int) (bool, string) {
 	fi := p.Info(fn)
 	b := Binds{}
 	for i, prm := range fn.Params {
@@ -1054,56 +1099,202 @@ func linearSearchRule(p *Prog, c *Check, rule, spec, collPat string) {
 			loop = l
 		}
 	}
-	key := fnName(fn) + ":linear-search"
-	if loop == nil {
-		c.Fail(rule, key, p.Rel(fn.Pos()), shortFn(fn), "search loop", "no loop over the whole collection (index 0 up to its length)")
-		return
-	}
 	nres := fn.Signature.Results().Len()
-	last := fn.Signature.Results().At(nres - 1).Type()
-	ok := true
-	why := ""
+	if loop == nil {
+		return linearSearchDelegated(p, fn, collPat, b, depth)
+	}
 	nFound, nNot := 0, 0
 	for _, r := range returnsOf(fn) {
-		found := false
-		if isErrorType(last) {
-			switch fi.errIsNil(r.Results[nres-1], r, 0) {
-			case yes:
-				found = true
-			case no:
-			default:
-				ok, why = false, "a return is neither clearly found nor clearly not-found"
-			}
-		} else {
-			switch fi.T(r.Results[nres-1]).s {
-			case "true":
-				found = true
-			case "false":
-			default:
-				ok, why = false, "a return is neither clearly found nor clearly not-found"
-			}
-		}
-		if found {
+		switch foundKind(fi, r) {
+		case 0:
+			return false, "a return is neither clearly found nor clearly not-found"
+		case 1:
 			nFound++
 			eb := copyBinds(b)
 			eb["i"] = loop.Idx
 			_, eq1 := findAtom(fi.FactsAt(r), collPat+"[$i] == _", eb)
 			_, eq2 := findAtom(fi.FactsAt(r), "_ == "+collPat+"[$i]", eb)
 			if !(loop.Blocks[r.Block()] || loop.Body != nil && loop.Body.Dominates(r.Block())) || !(eq1 || eq2) {
-				ok, why = false, "a found-result is returned without the current element having compared equal"
+				return false, "a found-result is returned without the current element having compared equal"
 			}
 			if nres >= 2 && stripConv(fi.T(r.Results[0])).s != loop.Idx.s {
-				ok, why = false, "the index returned is not the index of the element that compared equal: "+fi.T(r.Results[0]).s
+				return false, "the index returned is not the index of the element that compared equal: " + fi.T(r.Results[0]).s
 			}
-		} else {
+		case -1:
 			nNot++
 			if !fi.onlyByExhaustion(loop, r.Block()) {
-				ok, why = false, "not-found is returned before every element was compared"
+				return false, "not-found is returned before every element was compared"
 			}
 		}
 	}
 	if nFound == 0 || nNot == 0 {
-		ok, why = false, "the function lacks a found or a not-found return"
+		return false, "the function lacks a found or a not-found return"
 	}
-	c.Result(ok, rule, key, p.Rel(fn.Pos()), shortFn(fn), "linear search over "+collPat, why, "found only on equality inside the loop; not-found only by exhaustion of [0, len)")
+	return true, ""
+}
+
+// linearSearchDelegated: fn has no search loop of its own; it hands the collection to
+// slices.Index/IndexFunc or to a module helper that is itself a whole-collection linear search, and
+// maps that result faithfully (found ↔ found, same index).
+func linearSearchDelegated(p *Prog, fn *ssa.Function, collPat string, b Binds, depth int) (bool, string) {
+	fi := p.Info(fn)
+	nres := fn.Signature.Results().Len()
+	if depth > 2 {
+		return false, "no loop over the whole collection (index 0 up to its length)"
+	}
+	for _, blk := range fn.Blocks {
+		for _, in := range blk.Instrs {
+			call, ok := in.(*ssa.Call)
+			if !ok {
+				continue
+			}
+			argIdx := -1
+			for i, a := range call.Common().Args {
+				if ParsePat(collPat).Match(fi.T(a), copyBinds(b)) {
+					argIdx = i
+				}
+			}
+			if argIdx < 0 {
+				continue
+			}
+			ct := fi.T(call)
+			nm := callNameGeneric(call)
+			var foundPats, notPats []string
+			var idxT *Term
+			switch {
+			case (nm == "slices.Index" || nm == "slices.IndexFunc") && argIdx == 0:
+				foundPats = []string{"0 <= $c", "-1 < $c", "$c != -1"}
+				notPats = []string{"$c < 0", "$c <= -1", "$c == -1"}
+				idxT = ct
+			default:
+				h := call.Common().StaticCallee()
+				if h == nil || !inModule(h) || h.Blocks == nil || call.Common().IsInvoke() {
+					continue
+				}
+				h = origin(h)
+				if ok, why := linearSearchOK(p, h, fmt.Sprintf("$p%d", argIdx), depth+1); !ok {
+					return false, "delegates to " + shortFn(h) + ", which is not a whole-collection search: " + why
+				}
+				hres := h.Signature.Results().Len()
+				lastT := ct
+				if hres > 1 {
+					lt := mk(TRes, "", h.Signature.Results().At(hres-1).Type(), nil, ct)
+					lt.Idx = hres - 1
+					lt.s = lt.render()
+					lastT = lt
+					it := mk(TRes, "", h.Signature.Results().At(0).Type(), nil, ct)
+					it.Idx = 0
+					it.s = it.render()
+					idxT = it
+				}
+				if isErrorType(h.Signature.Results().At(hres - 1).Type()) {
+					foundPats, notPats = []string{"$l == nil"}, []string{"$l != nil"}
+				} else {
+					foundPats, notPats = []string{"$l == true"}, []string{"$l == false"}
+				}
+				b = copyBinds(b)
+				b["l"] = lastT
+			}
+			bb := copyBinds(b)
+			bb["c"] = ct
+			has := func(facts []Atom, pats []string) bool {
+				for _, ps := range pats {
+					if _, ok := findAtom(facts, ps, copyBinds(bb)); ok {
+						return true
+					}
+				}
+				return false
+			}
+			nFound, nNot := 0, 0
+			for _, r := range returnsOf(fn) {
+				facts := fi.FactsAt(r)
+				kind := foundKind(fi, r)
+				// a pass-through of the helper's own verdict (return h(...)) is faithful by construction
+				if kind == 0 && nres >= 1 {
+					lastV := fi.T(r.Results[nres-1])
+					if l, okL := bb["l"]; okL && lastV.s == l.s {
+						if nres < 2 || idxT == nil || stripConv(fi.T(r.Results[0])).s == stripConv(idxT).s {
+							nFound++
+							nNot++
+							continue
+						}
+					}
+					return false, "a return is neither clearly found nor clearly not-found"
+				}
+				if kind == 1 {
+					nFound++
+					if !has(facts, foundPats) {
+						return false, "found is returned although the delegated search did not report a hit"
+					}
+					if nres >= 2 && idxT != nil && stripConv(fi.T(r.Results[0])).s != stripConv(idxT).s {
+						return false, "the index returned is not the delegated search's index: " + fi.T(r.Results[0]).s
+					}
+				} else {
+					nNot++
+					if !has(facts, notPats) {
+						return false, "not-found is returned although the delegated search may have reported a hit"
+					}
+				}
+			}
+			if nFound == 0 || nNot == 0 {
+				return false, "the function lacks a found or a not-found return"
+			}
+			return true, ""
+		}
+	}
+	return false, "no loop over the whole collection (index 0 up to its length)"
+}
+
+// sqlClauses: further query clauses a property's rules lean on (key columns of lookups, ordering,
+// conflict handling). One table, so that a property lists what it relies on in one place.
+var sqlClauses = map[string][][]string{
+	// prop: {pkg, const, fragment...}
+	"C01": {
+		{"keyper/database", "selectDecryptionKeyShares", "from decryption_key_share where eon = $1 and epoch_id = $2"},
+		{"keyper/database", "getDecryptionKey", "from decryption_key where eon = $1 and epoch_id = $2"},
+		{"keyper/database", "existsDecryptionKey", "from decryption_key where eon = $1 and epoch_id = $2"},
+		{"keyper/database", "existsDecryptionKeyShare", "where eon = $1 and epoch_id = $2 and keyper_index = $3"},
+	},
+	"C03": {
+		{"keyper/database", "selectDecryptionKeyShares", "from decryption_key_share where eon = $1 and epoch_id = $2"},
+		{"keyperimpl/gnosis/database", "getSlotDecryptionSignatures", "order by keyper_index asc"},
+		{"keyperimpl/shutterservice/database", "getDecryptionSignatures", "order by keyper_index asc"},
+	},
+	"C04": {
+		{"keyper/database", "getDecryptionKey", "from decryption_key where eon = $1 and epoch_id = $2"},
+		{"keyper/database", "getDKGResult", "from dkg_result where eon = $1"},
+	},
+	"C06": {
+		{"keyperimpl/gnosis/database", "getSlotDecryptionSignatures", "where eon = $1 and slot = $2 and tx_pointer = $3 and identities_hash = $4", "order by keyper_index asc"},
+		{"keyperimpl/shutterservice/database", "getDecryptionSignatures", "where eon = $1 and identities_hash = $2", "order by keyper_index asc"},
+		{"keyperimpl/gnosis/database", "insertSlotDecryptionSignature", "on conflict do nothing"},
+		{"keyperimpl/shutterservice/database", "insertDecryptionSignature", "on conflict do nothing"},
+	},
+	"C02": {
+		{"keyper/database", "getDKGResultForKeyperConfigIndex", "from dkg_result where eon = ( select max ( eon ) from eons where keyper_config_index = $1 )"},
+		{"keyper/database", "getLatestStartedEonByKeyperConfigIndex", "from eons where keyper_config_index = $1 order by eon desc limit 1"},
+	},
+	"C08": {
+		{"keyper/database", "tMGetSyncMeta", "from tendermint_sync_meta order by current_block desc , last_committed_height desc limit 1"},
+		{"keyper/database", "tMSetSyncMeta", "insert into tendermint_sync_meta ( current_block , last_committed_height , sync_timestamp ) values ( $1 , $2 , $3 )"},
+		{"keyper/database", "insertPureDKG", "insert into puredkg ( eon , puredkg ) values ( $1 , $2 )", "on conflict ( eon ) do update set puredkg = excluded.puredkg"},
+		{"keyper/database", "selectPureDKG", "from puredkg", "!where", "!limit"},
+		{"keyper/database", "getEon", "from eons where eon = $1"},
+		{"keyper/database", "getBatchConfig", "from tendermint_batch_config where keyper_config_index = $1"},
+		{"keyper/database", "insertEon", "insert into eons ( eon , height , activation_block_number , keyper_config_index ) values ( $1 , $2 , $3 , $4 )"},
+		{"keyper/database", "deleteShutterMessage", "delete from tendermint_outgoing_messages where id = $1"},
+	},
+	"C20": {
+		{"keyper/database", "getAndDeleteEonPublicKeys", "inner join eons on t1.eon = eons.eon", "inner join tendermint_batch_config tbc on eons.keyper_config_index = tbc.keyper_config_index"},
+	},
+	"C19": {
+		{"keyperimpl/gnosis/database", "getTxPointer", "from tx_pointer where eon = $1"},
+		{"keyperimpl/gnosis/database", "getCurrentDecryptionTrigger", "from current_decryption_trigger where eon = $1"},
+	},
+}
+
+func sqlClauseRules(p *Prog, c *Check) {
+	for _, e := range sqlClauses[c.Prop] {
+		c.SQL(p, c.Prop+"-SQL", e[0], e[1], e[2:]...)
+	}
 }
